@@ -9,6 +9,7 @@ CONSTANTS
   MaxN = 3
   MaxRedirects = 3
   Combos <- CombosQ2
+  HistKinds <- KindsQ
 INVARIANT ResultIsClosure
 INVARIANT ResultWithinStatement
 INVARIANT NeverOvermarks
